@@ -97,22 +97,24 @@ Proof. exact PropSimLazy.lazy_evalall_consistent. Qed.
 Print Assumptions C06_one_pass_consistent.
 
 (* the state conditions hold in every world reached by a history of a growing network of evaluator-driven bindings (LSND: dirty
-   flags sound in the abstraction; LCOH follows from it and the link invariant: PropGrowLazy.LCOH_of_LSND) *)
+   flags sound in the abstraction - LCOH follows from it and the link invariant, PropGrowLazy.LCOH_of_LSND; LREG: the registration
+   order is duplicate free and is a dependency order) *)
 Theorem C06_state_conditions_reachable :
   forall fn rtl ev, ev <> 0 -> forall f ops w,
-    PropSimLazy.LSC ev w -> PropGrowLazy.LSND fn w -> PropGrowLazy.lazy_run_ok fn rtl ev f w ops ->
-    PropSimLazy.LSC ev (fold_left (step fn rtl (S f)) ops w) /\ PropGrowLazy.LSND fn (fold_left (step fn rtl (S f)) ops w).
+    PropSimLazy.LSC ev w -> PropGrowLazy.LSND fn w -> PropGrowLazy.LREG ev w -> PropGrowLazy.lazy_run_ok fn rtl ev f w ops ->
+    PropSimLazy.LSC ev (fold_left (step fn rtl (S f)) ops w) /\ PropGrowLazy.LSND fn (fold_left (step fn rtl (S f)) ops w) /\
+    PropGrowLazy.LREG ev (fold_left (step fn rtl (S f)) ops w).
 Proof. exact PropGrowLazy.lazy_grow_coherent. Qed.
 Print Assumptions C06_state_conditions_reachable.
 
-(* end to end from the empty world *)
+(* end to end from the empty world: in a growing network creation order is dependency order, so ONE evaluateAll makes every
+   registered bound property equal to its expression recomputed from scratch - no further premise *)
 Theorem C06_reachable_one_pass :
-  forall fn rtl ev, ev <> 0 -> forall f ops e st w',
+  forall fn rtl ev, ev <> 0 -> forall f ops e w',
     PropGrowLazy.lazy_run_ok fn rtl ev f world0 ops ->
-    lookup (w_bevs (run fn rtl (S f) ops)) e = Some ev -> nth_error (w_evps (run fn rtl (S f) ops)) ev = Some st ->
-    NoDup (PropSimLazy.regs_of (run fn rtl (S f) ops) (ep_registry st)) ->
-    PropSimLazy.lchain (run fn rtl (S f) ops) (PropSimLazy.regs_of (run fn rtl (S f) ops) (ep_registry st)) ->
+    lookup (w_bevs (run fn rtl (S f) ops)) e = Some ev ->
     step1 fn rtl (S f) (run fn rtl (S f) ops) (BevEvalAll e) = (w', None) ->
+    forall st, nth_error (w_evps (run fn rtl (S f) ops)) ev = Some st ->
     forall q x pr z, In q (PropSimLazy.regs_of (run fn rtl (S f) ops) (ep_registry st)) -> PropSimLazy.lz_of w' q = Some x ->
       lookup (w_props w') q = Some pr -> PropCheck.den_node fn (values w') (b_root x) = Some z -> pr_value pr = z.
 Proof. exact PropGrowLazy.lazy_reachable_one_pass. Qed.
